@@ -297,8 +297,17 @@ def make_builtins(it):
         return it.ctx.clock if it.ctx.clock is not None else 0
     reg("$clock_now", f_clock_now)
 
+    def f_clock_ns_of(it, args, kw):
+        """spec helper: the ghost-clock value (ns) of a wall-clock float such as `timeout + time.monotonic()`"""
+        v = args[0]
+        if isinstance(v, SFloat) and v.ns is not None:
+            return v.ns
+        raise Unsupported("clock_ns_of: not a wall-clock value")
+    reg("$clock_ns_of", f_clock_ns_of)
+
     def f_monotonic(it, args, kw):
-        return SFloat(True)
+        # float seconds of the SAME ghost clock as monotonic_ns()
+        return SFloat(True, ns=f_monotonic_ns(it, args, kw))
     reg("$time.monotonic", f_monotonic)
 
     def f_sleep(it, args, kw):
